@@ -168,25 +168,27 @@ theorem senders_gone_recv_disconnected_partial (h : Reach progS progR s) (hro : 
   · intro hp
     rcases hm with h1 | h1 | h1 | h1 | h1 <;> rw [hp] at h1 <;> cases h1
 
-/-- the full C04 clause the code does not satisfy once closed handles are cloned -/
+/-- the C04 finality clause, at full strength (no hypothesis on the programs) -/
 def disconnected_is_final_statement (progS : Nat → List Op) (progR : List Op) : Prop :=
   ∀ s, Reach progS progR s → Res.disc ∈ s.results .R →
     s.closed .R = true ∨ s.st = .closed ∨ s.st = .taken
 
-/-- C04, PARTIAL (hypothesis `discRace = false`: the receiver never answered Disconnected after its CAS
-EMPTY→CLOSED failed — that race needs a clone of a closed handle, witness
-`C04_fails_disconnected_then_value_after_reopen`): once the receiver has been told `Disconnected`, its own
-handle is closed or the state word is CLOSED or TAKEN; it is not inside a claim of the value. -/
-theorem disconnected_is_final_partial (h : Reach progS progR s) (hdr : s.discRace = false)
-    (hd : Res.disc ∈ s.results .R) :
+/-- C04 (full strength since fix a886a91 — on the old code this was false without any clone: the
+receiver answered Disconnected from a stale EMPTY + a fresh count 0 while the value was SENT): once the
+receiver has been told `Disconnected`, its own handle is closed or the state word is CLOSED or TAKEN
+— all three are permanent —, and it is not inside a claim of the value. -/
+theorem disconnected_is_final (h : Reach progS progR s) (hd : Res.disc ∈ s.results .R) :
     (s.closed .R = true ∨ s.st = .closed ∨ s.st = .taken) ∧ (s.loc .R).m ≠ .tCasST ∧ (s.loc .R).m ≠ .tLock :=
-  ⟨(reach_ainv h).d6.dD hdr (.inr hd), (reach_ainv h).d6.dN hdr hd⟩
+  ⟨(reach_ainv h).d6.dD (.inr hd), (reach_ainv h).d6.dN hd⟩
 
-/-- … and in such a state no step hands a value to the receiver any more: `received` is frozen. -/
-theorem no_value_after_disconnected_partial (h : Reach progS progR s) (hdr : s.discRace = false)
+theorem disconnected_is_final_holds : disconnected_is_final_statement progS progR :=
+  fun _ h hd => (disconnected_is_final h hd).1
+
+/-- C04: … and from then on no step hands a value to the receiver: `received` is frozen. -/
+theorem no_value_after_disconnected (h : Reach progS progR s)
     (hd : Res.disc ∈ s.results .R) {a : Ag} {s' : State} (hs : step s a .act = some s') :
     s'.received = s.received := by
-  have hN := (disconnected_is_final_partial h hdr hd).2
+  have hN := (disconnected_is_final h hd).2
   rcases stepAct_cases hs with h1 | h1 | h1 | h1 | h1 | h1 | h1 | h1
   · os_split h1 [stepSend]; all_goals rfl
   · os_split h1 [stepWk]; all_goals rfl
@@ -200,6 +202,40 @@ theorem no_value_after_disconnected_partial (h : Reach progS progR s) (hdr : s.d
     · simp [stepTry, ha] at h1
   · os_split h1 [stepTry2]; all_goals rfl
   · os_split h1 [stepPoll]; all_goals rfl
+
+/-- C04 "drain, then Disconnected" (full strength): when a receive answers `Disconnected` on a receiver
+handle that was not itself closed, no value is sitting in the channel — the slot is empty and the state
+is CLOSED (nothing was ever sent) or TAKEN (the value was handed out before). -/
+theorem disconnected_only_after_drain (h : Reach progS progR s)
+    (hd : (s.loc .R).m = .ret .disc ∨ Res.disc ∈ s.results .R) (hc : s.closed .R = false) :
+    s.slot = none ∧ (s.st = .closed ∨ s.st = .taken) := by
+  have hI := reach_ainv h
+  have hst : s.st = .closed ∨ s.st = .taken := by
+    rcases hI.d6.dD hd with h1 | h1 | h1
+    · rw [hc] at h1; cases h1
+    · exact .inl h1
+    · exact .inr h1
+  refine ⟨?_, hst⟩
+  cases hsl : s.slot with
+  | none => rfl
+  | some v =>
+    exfalso
+    have hne : s.slot ≠ none := by rw [hsl]; simp
+    rcases hI.i3.slotU hne with h1 | h1 | ⟨i, hi, _⟩
+    · rcases hst with h2 | h2 <;> rw [h1] at h2 <;> cases h2
+    · obtain ⟨b, hb⟩ := Option.ne_none_iff_exists'.mp h1
+      rcases hI.d6.tkRd b hb with h2 | h2
+      · subst h2
+        have hT := hI.i3.tkU .R hb
+        simp only [inT] at hT
+        rcases hT with h3 | h3
+        · have := hI.d6.ciR (.inr (.inr (.inr (.inl h3)))); rw [hc] at this; cases this
+        · rcases hd with h4 | h4
+          · rw [h3] at h4; cases h4
+          · exact (hI.d6.dN h4).2 h3
+      · have := hI.j3.rdropCl h2; rw [hc] at this; cases this
+    · have hw : s.st = .writing := hI.i2.stW.mpr (by rw [hi]; simp)
+      rcases hst with h2 | h2 <;> rw [hw] at h2 <;> cases h2
 
 /-! ## (c) C05 / C06: no lost wakeup, safety form -/
 
